@@ -1,5 +1,7 @@
 #![recursion_limit = "512"]
 mod c11;
+mod c14;
+mod c14seg;
 mod igcp;
 mod red;
 mod thermo;
@@ -11,6 +13,7 @@ fn main() {
     let args = util::parse_args();
     match args.cmd.as_str() {
         "c11" => c11::run(&args),
+        "c14" => c14::run(&args),
         "thermo" => thermo::run(&args),
         "igcp" => igcp::run(&args),
         "virial" => virial::run(&args),
